@@ -47,12 +47,14 @@ def allowed_user(uid, rel):
     if rel == ["users"]:
         return True
     if len(rel) >= 2 and rel[0] == "users":
-        return (not rel[1].isdigit()) or rel[1] == str(uid)
+        is_number = rel[1] != "" and all(c in "0123456789" for c in rel[1])      # "a number": decimal digits only, of any length
+        return (not is_number) or rel[1] == str(uid)
     return False
 
 
 def gen_tree(rng):
-    names = ["1000", "2000", "3000", "42", "shared", "abc", "12ab", "x1", "7", "sub", "0", "team"]
+    names = ["1000", "2000", "3000", "42", "shared", "abc", "12ab", "x1", "7", "sub", "0", "team",
+             "4294967296", "99999999999999999999", "007", "+5", "-3", "1e3", "0x10"]      # numbers that do not fit a uid_t; near-numbers
     dirs = [["users"]]
     for _ in range(rng.randint(3, 10)):
         depth = rng.randint(1, 3)
@@ -104,7 +106,7 @@ def run(ctx):
                 out = open(os.path.join(work, "out.%s" % uid), "rb").read()
                 seen = {os.path.basename(k)[:-len(".service")] for k in e2e.parse_dry_run(out)}
                 ctx.evaluations += 1
-                nontriv = any(len(r) >= 3 and r[0] == "users" and (r[1].isdigit() or r[2].isdigit()) for r in tree)
+                nontriv = any(len(r) >= 3 and r[0] == "users" and (r[1][:1].isdigit() or r[2][:1].isdigit()) for r in tree)
                 if nontriv:
                     ctx.nontrivial.add((tuple(tree), uid))
                 ctx.count("run:%s" % ("root" if uid == "root" else "user"))
